@@ -247,12 +247,9 @@ class FnTranslator:
                 if len(args) != 2 or not all(isinstance(a, S) for a in args): raise Refuse('max/min need two ints')
                 return S(f'({f.split(".")[-1]} {args[0].e} {args[1].e})')
             if f == 'slice' and len(args) == 2: return V(args)
-<<<<<<< HEAD
             if f == 'np.array_equal' and len(args) == 2: return self.cmp('==', args[0], args[1])
-=======
             if f == 'any' and len(args) == 1 and isinstance(args[0], V) and args[0].items and all(isinstance(x, B) for x in args[0].items):
                 return B('(' + ' || '.join(x.e for x in args[0].items) + ')')
->>>>>>> wE
             if f == 'np.all' and len(args) == 1:
                 a = args[0]
                 if isinstance(a, B): return a
